@@ -2,6 +2,7 @@ import Ark.Proofs.Table
 import Ark.Proofs.GenBridge
 import Ark.Proofs.ArchIndex
 import Ark.Proofs.Rejects
+import Ark.Props.C15World
 
 namespace Ark.Props.C15
 open Ark
@@ -45,5 +46,42 @@ theorem shrink_idempotent (t : Table) (m : Nat) : ((t.shrink m).1.shrink m).2 = 
     rw [hc, hl]
     split <;> omega
   simp [this]
+
+
+/-! ## world level (Props/C15World): Shrink is invisible, keeps the structure, is exact about remaining
+    work, and converges -/
+
+theorem world_shrink_is_pure : type_of% @Ark.Props.C15World.shrink_is_pure := @Ark.Props.C15World.shrink_is_pure
+
+theorem world_shrink_invisible : type_of% @Ark.Props.C15World.shrink_invisible := @Ark.Props.C15World.shrink_invisible
+
+theorem world_shrinkRel_frame : type_of% @Ark.Props.C15World.shrinkRel_frame := @Ark.Props.C15World.shrinkRel_frame
+
+theorem world_shrinkRel_table : type_of% @Ark.Props.C15World.shrinkRel_table := @Ark.Props.C15World.shrinkRel_table
+
+theorem world_shrinkRel_arch_cache : type_of% @Ark.Props.C15World.shrinkRel_arch_cache := @Ark.Props.C15World.shrinkRel_arch_cache
+
+theorem world_shrinkRel_getRelation : type_of% @Ark.Props.C15World.shrinkRel_getRelation := @Ark.Props.C15World.shrinkRel_getRelation
+
+theorem world_shrinkRel_alive : type_of% @Ark.Props.C15World.shrinkRel_alive := @Ark.Props.C15World.shrinkRel_alive
+
+theorem world_shrink_keeps_structure : type_of% @Ark.Props.C15World.shrink_keeps_structure := @Ark.Props.C15World.shrink_keeps_structure
+
+theorem world_shrink_caps : type_of% @Ark.Props.C15World.shrink_caps := @Ark.Props.C15World.shrink_caps
+
+theorem world_shrink_unbounded_no_work : type_of% @Ark.Props.C15World.shrink_unbounded_no_work := @Ark.Props.C15World.shrink_unbounded_no_work
+
+theorem world_shrink_result_exact : type_of% @Ark.Props.C15World.shrink_result_exact := @Ark.Props.C15World.shrink_result_exact
+
+theorem world_shrink_bounded_one_step : type_of% @Ark.Props.C15World.shrink_bounded_one_step := @Ark.Props.C15World.shrink_bounded_one_step
+
+theorem world_shrink_progress : type_of% @Ark.Props.C15World.shrink_progress := @Ark.Props.C15World.shrink_progress
+
+theorem world_shrink_converges : type_of% @Ark.Props.C15World.shrink_converges := @Ark.Props.C15World.shrink_converges
+
+theorem world_shrink_converges_fuel : type_of% @Ark.Props.C15World.shrink_converges_fuel := @Ark.Props.C15World.shrink_converges_fuel
+
+theorem world_shrink_converges_structure : type_of% @Ark.Props.C15World.shrink_converges_structure := @Ark.Props.C15World.shrink_converges_structure
+
 
 end Ark.Props.C15
